@@ -53,3 +53,41 @@ class NativeBytecode:
             raise Inconclusive("native harness returned %d results for %d vectors" % (len(out), len(vectors)))
         log("  native harness (%s): %d vectors, %.1fs" % (prof, len(vectors), time.time() - t))
         return out
+
+
+class NativeCompiler:
+    def __init__(self, scratch):
+        self.s = scratch
+        self.installed = False
+
+    def install(self):
+        if self.installed:
+            return
+        # inside `crate::ast` because some fields are `pub(in crate::ast)`
+        src = self.s.path("compiler", "src")
+        shutil.copy(os.path.join(VERIF, "native", "compiler_harness.rs"), os.path.join(src, "ast", "verif_native.rs"))
+        with open(os.path.join(src, "ast.rs"), "a") as f:
+            f.write("\n#[cfg(test)]\nmod verif_native;\n")
+        self.installed = True
+
+    def run(self, env_extra=None, release=False):
+        """-> list of token lists (one per result line)"""
+        self.install()
+        res_path = os.path.join(self.s.dir, "compiler_results.txt")
+        if os.path.exists(res_path):
+            os.remove(res_path)
+        t = time.time()
+        cmd = ["cargo", "test", "--offline", "--lib", "-p", "compiler", "--target-dir", os.path.join(self.s.dir, "target-native")]
+        if release:
+            cmd.append("--release")
+        cmd += ["verif_native_run", "--", "--nocapture", "--test-threads", "1"]
+        e = {"VERIF_RESULTS": res_path}
+        if env_extra:
+            e.update(env_extra)
+        p = run(cmd, cwd=self.s.repo, env=env_offline(e), timeout=1800, check=False)
+        if p.returncode != 0 or not os.path.exists(res_path):
+            raise Inconclusive("compiler native harness failed: %s" % ((p.stderr or "")[-3000:] + (p.stdout or "")[-1000:]))
+        with open(res_path) as f:
+            lines = [l.split() for l in f if l.strip()]
+        log("  compiler native harness: %d lines, %.1fs" % (len(lines), time.time() - t))
+        return lines
